@@ -195,6 +195,20 @@ def shard_respell(a):
                 pres.append(f[1])
     for x in gen.accepted_seeds(name)[:a['nnum']]:
         pres.append(x)
+    # abbreviated spellings that the module pads itself (groups written without their leading zeros): accepted ones are
+    # presentations too, and the separators in them matter for the padding
+    import re
+    for x in list(pres):
+        parts = re.split(r'([-./: ])', x)
+        if len(parts) < 3:
+            continue
+        cands = [''.join(p.lstrip('0') or '0' if i % 2 == 0 else p for i, p in enumerate(parts))]
+        for j in range(0, len(parts), 2):
+            cands.append(''.join((p.lstrip('0') or '0') if i == j else p for i, p in enumerate(parts)))
+        for y in cands:
+            if y != x and y not in pres and core.out(m.validate, y) == core.out(m.validate, x) and core.out(m.validate, x)[0] == 'ok':
+                pres.append(y)
+                res.hist['abbreviated-presentations'] += 1
     seen = set()
     import random
     rnd = random.Random(core.subseed(a['seed'], 'C14', name))
